@@ -20,6 +20,10 @@ EXC_PARENT = {
     'AttributeError': 'Exception', 'RuntimeError': 'Exception', 'NotImplementedError': 'RuntimeError',
     'StopIteration': 'Exception', 'ArithmeticError': 'Exception', 'ZeroDivisionError': 'ArithmeticError',
     'OSError': 'Exception', 'NameError': 'Exception', 'ImportError': 'Exception',
+    'FileNotFoundError': 'OSError', 'FileExistsError': 'OSError', 'PermissionError': 'OSError', 'IsADirectoryError': 'OSError',
+    'NotADirectoryError': 'OSError', 'ConnectionError': 'OSError', 'BrokenPipeError': 'ConnectionError', 'TimeoutError': 'OSError',
+    'UnicodeError': 'ValueError', 'UnicodeDecodeError': 'UnicodeError', 'UnicodeEncodeError': 'UnicodeError',
+    'OverflowError': 'ArithmeticError', 'RecursionError': 'RuntimeError', 'EOFError': 'Exception', 'MemoryError': 'Exception',
     'UserWarning': 'Exception', 'DeprecationWarning': 'Exception',
     # tableschema / datapackage (checked against the installed packages by the harness probe)
     'DataPackageException': 'Exception', 'CastError': 'DataPackageException', 'UniqueKeyError': 'CastError',
@@ -657,6 +661,11 @@ def binop(it, op, a, b, inplace=False):
                 return a % b
             if name == 'Div':
                 return a / b
+            if name == 'Pow':
+                return a ** b
+            if isinstance(a, int) and isinstance(b, int) and name in ('LShift', 'RShift', 'BitOr', 'BitAnd', 'BitXor') and \
+                    (name not in ('LShift', 'RShift') or 0 <= b < 4096):
+                return {'LShift': a << b, 'RShift': a >> b, 'BitOr': a | b, 'BitAnd': a & b, 'BitXor': a ^ b}[name]
         except ZeroDivisionError:
             it.raise_('ZeroDivisionError')
     sa, sb = _num_sort(a), _num_sort(b)
@@ -982,6 +991,10 @@ def find_class_attr(cls, name):
 
 
 def getattr_(it, obj, name):
+    if isinstance(obj, MatchOrNone):
+        if name == 'expand':
+            return BoundMethod(obj, 'expand', lambda it_, recv, template: _match_expand(it_, recv, template))
+        raise Unsupported('attribute %s of a match object' % name)
     if isinstance(obj, ModuleV):
         if name in obj.attrs:
             v = obj.attrs[name]
@@ -1567,7 +1580,7 @@ def _list_append(it, l, v):
     if it.term_mode:
         raise Unsupported('mutation in term mode')
     l.items.append(v)
-    it.emit(Ev('Append', obj=l, value=snap(it, v)))
+    it.emit(Ev('Append', obj=l, value=snap(it, v), raw=v))
 
 
 def _list_extend(it, l, other):
@@ -1885,20 +1898,38 @@ def _match_result(it, ok):
 
 
 class MatchOrNone:
-    def __init__(self, ok):
+    def __init__(self, ok, kind=None, pattern=None, string=None):
         self.ok = ok
+        self.kind, self.pattern, self.string = kind, pattern, string
+
+
+RE_EXPAND = z3.Function('re_fullmatch_expand', StrS, StrS, StrS, StrS)     # re.fullmatch(p, s).expand(template)
+
+
+def _match_expand(it, m, template):
+    """Match.expand(template): only modelled for the result of fullmatch (uninterpreted in pattern, template, string)"""
+    if not it.branch(m.ok):
+        it.raise_('AttributeError', "'NoneType' object has no attribute 'expand'")
+    if m.kind != 'fullmatch':
+        raise Unsupported('expand() on the result of re.%s' % m.kind)
+    return wrap(RE_EXPAND(term(m.pattern, StrS), term(template, StrS), term(m.string, StrS)))
 
 
 def _re_match(it, r, s):
-    return MatchOrNone(RE_MATCH(term(r.pattern, StrS), term(s, StrS)))
+    return MatchOrNone(RE_MATCH(term(r.pattern, StrS), term(s, StrS)), 'match', r.pattern, s)
 
 
 def _re_fullmatch(it, r, s):
-    return MatchOrNone(RE_FULLMATCH(term(r.pattern, StrS), term(s, StrS)))
+    p, st = term(r.pattern, StrS), term(s, StrS)
+    if z3.is_app(p) and p.decl().eq(RE_ESCAPE):
+        # the one fact about re.escape the engine uses (ground instance, T2): an escaped literal matches a whole string
+        # exactly when the string is that literal
+        it.assume(RE_FULLMATCH(p, st) == (p.arg(0) == st))
+    return MatchOrNone(RE_FULLMATCH(p, st), 'fullmatch', r.pattern, s)
 
 
 def _re_search(it, r, s):
-    return MatchOrNone(RE_SEARCH(term(r.pattern, StrS), term(s, StrS)))
+    return MatchOrNone(RE_SEARCH(term(r.pattern, StrS), term(s, StrS)), 'search', r.pattern, s)
 
 
 def _re_sub(it, r, repl, s):
@@ -2932,6 +2963,8 @@ def builtin(it, name):
         v = TypeBuiltin(name, BUILTINS.get(name))
     elif name in BUILTINS:
         v = Builtin(name, BUILTINS[name])
+    elif name in ('IOError', 'EnvironmentError'):
+        return exc_class('OSError')        # aliases of OSError since Python 3.3
     elif name in EXC_PARENT:
         v = exc_class(name)
     elif name == 'NotImplementedError':
